@@ -14,50 +14,50 @@ import (
 )
 
 var preludeDefs = map[string]string{
-	"wrap_i64":   "(define-fun wrap_i64 ((x Int)) Int (ite (and (<= (- 9223372036854775808) x) (<= x 9223372036854775807)) x (- (mod (+ x 9223372036854775808) 18446744073709551616) 9223372036854775808)))",
-	"wrap_i32":   "(define-fun wrap_i32 ((x Int)) Int (ite (and (<= (- 2147483648) x) (<= x 2147483647)) x (- (mod (+ x 2147483648) 4294967296) 2147483648)))",
-	"wrap_i16":   "(define-fun wrap_i16 ((x Int)) Int (ite (and (<= (- 32768) x) (<= x 32767)) x (- (mod (+ x 32768) 65536) 32768)))",
-	"wrap_i8":    "(define-fun wrap_i8 ((x Int)) Int (ite (and (<= (- 128) x) (<= x 127)) x (- (mod (+ x 128) 256) 128)))",
-	"wrap_u64":   "(define-fun wrap_u64 ((x Int)) Int (ite (and (<= 0 x) (<= x 18446744073709551615)) x (mod x 18446744073709551616)))",
-	"wrap_u32":   "(define-fun wrap_u32 ((x Int)) Int (ite (and (<= 0 x) (<= x 4294967295)) x (mod x 4294967296)))",
-	"wrap_u16":   "(define-fun wrap_u16 ((x Int)) Int (ite (and (<= 0 x) (<= x 65535)) x (mod x 65536)))",
-	"wrap_u8":    "(define-fun wrap_u8 ((x Int)) Int (ite (and (<= 0 x) (<= x 255)) x (mod x 256)))",
-	"go_div":     "(define-fun go_div ((x Int) (y Int)) Int (ite (>= x 0) (ite (> y 0) (div x y) (- (div x (- y)))) (ite (> y 0) (- (div (- x) y)) (div (- x) (- y)))))",
-	"go_mod":     "(define-fun go_mod ((x Int) (y Int)) Int (- x (* y (go_div x y))))",
-	"min2":       "(define-fun min2 ((x Int) (y Int)) Int (ite (<= x y) x y))",
-	"str_len":    "(declare-fun str_len (Str) Int)",
-	"str_empty":  "(declare-fun str_empty () Str)",
-	"str_cat":    "(declare-fun str_cat (Str Str) Str)",
-	"str_sub":    "(declare-fun str_sub (Str Int Int) Str)",
-	"str_at":     "(declare-fun str_at (Str Int) Int)",
-	"str_lt":     "(declare-fun str_lt (Str Str) Bool)",
-	"str_le":     "(declare-fun str_le (Str Str) Bool)",
-	"str_gt":     "(declare-fun str_gt (Str Str) Bool)",
-	"str_ge":     "(declare-fun str_ge (Str Str) Bool)",
-	"str_runecount": "(declare-fun str_runecount (Str) Int)",
-	"flt_add":    "(declare-fun flt_add (Flt Flt) Flt)",
-	"flt_sub":    "(declare-fun flt_sub (Flt Flt) Flt)",
-	"flt_mul":    "(declare-fun flt_mul (Flt Flt) Flt)",
-	"flt_div":    "(declare-fun flt_div (Flt Flt) Flt)",
-	"flt_neg":    "(declare-fun flt_neg (Flt) Flt)",
-	"flt_lt":     "(declare-fun flt_lt (Flt Flt) Bool)",
-	"flt_le":     "(declare-fun flt_le (Flt Flt) Bool)",
-	"flt_gt":     "(declare-fun flt_gt (Flt Flt) Bool)",
-	"flt_ge":     "(declare-fun flt_ge (Flt Flt) Bool)",
-	"flt_eq":     "(declare-fun flt_eq (Flt Flt) Bool)",
-	"flt_of_int": "(declare-fun flt_of_int (Int) Flt)",
-	"int_of_flt": "(declare-fun int_of_flt (Flt) Int)",
-	"bit_and":    "(declare-fun bit_and (Int Int) Int)",
-	"bit_or":     "(declare-fun bit_or (Int Int) Int)",
-	"bit_xor":    "(declare-fun bit_xor (Int Int) Int)",
-	"bit_andnot": "(declare-fun bit_andnot (Int Int) Int)",
-	"bit_shl":    "(declare-fun bit_shl (Int Int) Int)",
-	"bit_shr":    "(declare-fun bit_shr (Int Int) Int)",
-	"rng_draw":   "(declare-fun rng_draw (Int Int) Int)",
-	"psum":       "(declare-fun psum (Int Int Int) Int)",
-	"perm_idx":   "(declare-fun perm_idx (Int Int Int Int Int) Int)",
-	"map_len":    "(declare-fun map_len (Int Int) Int)",
-	"nlmul":      "(declare-fun nlmul (Int Int) Int)",
+	"wrap_i64":       "(define-fun wrap_i64 ((x Int)) Int (ite (and (<= (- 9223372036854775808) x) (<= x 9223372036854775807)) x (- (mod (+ x 9223372036854775808) 18446744073709551616) 9223372036854775808)))",
+	"wrap_i32":       "(define-fun wrap_i32 ((x Int)) Int (ite (and (<= (- 2147483648) x) (<= x 2147483647)) x (- (mod (+ x 2147483648) 4294967296) 2147483648)))",
+	"wrap_i16":       "(define-fun wrap_i16 ((x Int)) Int (ite (and (<= (- 32768) x) (<= x 32767)) x (- (mod (+ x 32768) 65536) 32768)))",
+	"wrap_i8":        "(define-fun wrap_i8 ((x Int)) Int (ite (and (<= (- 128) x) (<= x 127)) x (- (mod (+ x 128) 256) 128)))",
+	"wrap_u64":       "(define-fun wrap_u64 ((x Int)) Int (ite (and (<= 0 x) (<= x 18446744073709551615)) x (mod x 18446744073709551616)))",
+	"wrap_u32":       "(define-fun wrap_u32 ((x Int)) Int (ite (and (<= 0 x) (<= x 4294967295)) x (mod x 4294967296)))",
+	"wrap_u16":       "(define-fun wrap_u16 ((x Int)) Int (ite (and (<= 0 x) (<= x 65535)) x (mod x 65536)))",
+	"wrap_u8":        "(define-fun wrap_u8 ((x Int)) Int (ite (and (<= 0 x) (<= x 255)) x (mod x 256)))",
+	"go_div":         "(define-fun go_div ((x Int) (y Int)) Int (ite (>= x 0) (ite (> y 0) (div x y) (- (div x (- y)))) (ite (> y 0) (- (div (- x) y)) (div (- x) (- y)))))",
+	"go_mod":         "(define-fun go_mod ((x Int) (y Int)) Int (- x (* y (go_div x y))))",
+	"min2":           "(define-fun min2 ((x Int) (y Int)) Int (ite (<= x y) x y))",
+	"str_len":        "(declare-fun str_len (Str) Int)",
+	"str_empty":      "(declare-fun str_empty () Str)",
+	"str_cat":        "(declare-fun str_cat (Str Str) Str)",
+	"str_sub":        "(declare-fun str_sub (Str Int Int) Str)",
+	"str_at":         "(declare-fun str_at (Str Int) Int)",
+	"str_lt":         "(declare-fun str_lt (Str Str) Bool)",
+	"str_le":         "(declare-fun str_le (Str Str) Bool)",
+	"str_gt":         "(declare-fun str_gt (Str Str) Bool)",
+	"str_ge":         "(declare-fun str_ge (Str Str) Bool)",
+	"str_runecount":  "(declare-fun str_runecount (Str) Int)",
+	"flt_add":        "(declare-fun flt_add (Flt Flt) Flt)",
+	"flt_sub":        "(declare-fun flt_sub (Flt Flt) Flt)",
+	"flt_mul":        "(declare-fun flt_mul (Flt Flt) Flt)",
+	"flt_div":        "(declare-fun flt_div (Flt Flt) Flt)",
+	"flt_neg":        "(declare-fun flt_neg (Flt) Flt)",
+	"flt_lt":         "(declare-fun flt_lt (Flt Flt) Bool)",
+	"flt_le":         "(declare-fun flt_le (Flt Flt) Bool)",
+	"flt_gt":         "(declare-fun flt_gt (Flt Flt) Bool)",
+	"flt_ge":         "(declare-fun flt_ge (Flt Flt) Bool)",
+	"flt_eq":         "(declare-fun flt_eq (Flt Flt) Bool)",
+	"flt_of_int":     "(declare-fun flt_of_int (Int) Flt)",
+	"int_of_flt":     "(declare-fun int_of_flt (Flt) Int)",
+	"bit_and":        "(declare-fun bit_and (Int Int) Int)",
+	"bit_or":         "(declare-fun bit_or (Int Int) Int)",
+	"bit_xor":        "(declare-fun bit_xor (Int Int) Int)",
+	"bit_andnot":     "(declare-fun bit_andnot (Int Int) Int)",
+	"bit_shl":        "(declare-fun bit_shl (Int Int) Int)",
+	"bit_shr":        "(declare-fun bit_shr (Int Int) Int)",
+	"rng_draw":       "(declare-fun rng_draw (Int Int) Int)",
+	"psum":           "(declare-fun psum (Int Int Int) Int)",
+	"perm_idx":       "(declare-fun perm_idx (Int Int Int Int Int) Int)",
+	"map_len":        "(declare-fun map_len (Int Int) Int)",
+	"nlmul":          "(declare-fun nlmul (Int Int) Int)",
 	"shared_builtin": "(declare-fun shared_builtin (Int) Bool)",
 }
 
@@ -325,8 +325,12 @@ type solverSpec struct {
 
 // extra z3 configurations raced in stage 2 (quantifier instantiation is seed-sensitive)
 var seedSolvers = []solverSpec{
-	{"z3-new/seed2", func(f string, s int) []string { return []string{"z3-new", fmt.Sprintf("-T:%d", s), "smt.random_seed=2", f} }},
-	{"z3-new/seed3", func(f string, s int) []string { return []string{"z3-new", fmt.Sprintf("-T:%d", s), "smt.random_seed=3", f} }},
+	{"z3-new/seed2", func(f string, s int) []string {
+		return []string{"z3-new", fmt.Sprintf("-T:%d", s), "smt.random_seed=2", f}
+	}},
+	{"z3-new/seed3", func(f string, s int) []string {
+		return []string{"z3-new", fmt.Sprintf("-T:%d", s), "smt.random_seed=3", f}
+	}},
 	{"z3/seed2", func(f string, s int) []string { return []string{"z3", fmt.Sprintf("-T:%d", s), "smt.random_seed=2", f} }},
 	{"z3/seed3", func(f string, s int) []string { return []string{"z3", fmt.Sprintf("-T:%d", s), "smt.random_seed=3", f} }},
 }
